@@ -113,6 +113,14 @@ def traced_main(cfg_path, out):
 def compare_rasters(out, box, georef):
     import rasterio
     obs = {"values_equal_products": True, "dtype_float32": True, "mask_dtype_uint16": True, "band_names_are_indicators": True, "georeferencing_kept": True}
+    def geo_ok(f, side):
+        # every product of a side carries the georeferencing of THAT side's input image (the two images of a pair need
+        # not share a geotransform)
+        if georef is None:
+            return True
+        crs, tr = georef[side]
+        return f.crs is not None and f.crs.to_string() == crs and tuple(f.transform)[:6] == tuple(tr)[:6]
+
     for side in ("left", "right"):
         ds = box.get(side)
         if ds is None or "disparity_map" not in ds.data_vars:
@@ -120,13 +128,14 @@ def compare_rasters(out, box, georef):
         with rasterio.open(os.path.join(out, f"{side}_disparity.tif")) as f:
             obs["values_equal_products"] &= same_bits(f.read(1), np.asarray(ds["disparity_map"].data, dtype=np.float32))
             obs["dtype_float32"] &= f.dtypes[0] == "float32"
-            if georef is not None:
-                obs["georeferencing_kept"] &= (f.crs is not None and f.crs.to_string() == georef[0] and tuple(f.transform)[:6] == tuple(georef[1])[:6])
+            obs["georeferencing_kept"] &= geo_ok(f, side)
         with rasterio.open(os.path.join(out, f"{side}_validity_mask.tif")) as f:
+            obs["georeferencing_kept"] &= geo_ok(f, side)
             obs["values_equal_products"] &= bool(np.array_equal(f.read(1), np.asarray(ds["validity_mask"].data).astype(np.uint16)))
             obs["mask_dtype_uint16"] &= f.dtypes[0] == "uint16"
         if "confidence_measure" in ds.data_vars:
             with rasterio.open(os.path.join(out, f"{side}_confidence_measure.tif")) as f:
+                obs["georeferencing_kept"] &= geo_ok(f, side)
                 names = list(map(str, ds.coords["indicator"].data))
                 obs["band_names_are_indicators"] &= list(f.descriptions) == names and f.count == len(names)
                 for i in range(min(f.count, len(names))):
@@ -154,14 +163,17 @@ def run(tier):
     for k in range(nrun):
         rows, cols = int(rng.randint(8, 14)), int(rng.randint(12, 20))
         nb = 1 if k % 3 else 2
-        georef = ("EPSG:32631", from_origin(500000.0, 4000000.0, 0.5, 0.5)) if k % 2 == 0 else None
+        georef = ({"left": ("EPSG:32631", from_origin(500000.0, 4000000.0, 0.5, 0.5)),
+                   "right": ("EPSG:32631", from_origin(500000.0 + [0.0, 12.5][int(k % 4 == 1 or (k // 2) % 2 == 1)], 4000000.0, 0.5, 0.5))}
+                  if (k % 2 == 0 or k % 4 == 1) else None)
         L = rng.randint(0, 200, size=(nb, rows, cols)).astype(np.float32)
         R = np.roll(L, 1, axis=2)
         d = tmp / f"run{k}"
         d.mkdir()
-        kw = dict(crs=georef[0], transform=georef[1]) if georef else {}
-        fl = build.write_tif(d / "left.tif", L if nb > 1 else L[0], descriptions=["r", "g"] if nb > 1 else None, **kw)
-        fr = build.write_tif(d / "right.tif", R if nb > 1 else R[0], descriptions=["r", "g"] if nb > 1 else None, **kw)
+        kwl = dict(crs=georef["left"][0], transform=georef["left"][1]) if georef else {}
+        kwr = dict(crs=georef["right"][0], transform=georef["right"][1]) if georef else {}
+        fl = build.write_tif(d / "left.tif", L if nb > 1 else L[0], descriptions=["r", "g"] if nb > 1 else None, **kwl)
+        fr = build.write_tif(d / "right.tif", R if nb > 1 else R[0], descriptions=["r", "g"] if nb > 1 else None, **kwr)
         grid = k % 4 == 3
         if grid:
             g = np.stack([rng.randint(-3, 0, size=(rows, cols)), rng.randint(0, 3, size=(rows, cols))]).astype(np.float32)
@@ -199,7 +211,7 @@ def run(tier):
             chk.violation("total", {"stage": events[-1]["ev"] if events else "start", "exception": type(exc).__name__},
                           {"features": feat, "exception": repr(exc)[:300]}, f"pandora.main raised on a valid configuration: {exc!r}")
             continue
-        obs.update(compare_rasters(out, box, (georef[0], georef[1]) if georef else None))
+        obs.update(compare_rasters(out, box, georef))
         # saved configuration
         try:
             saved = json.load(open(os.path.join(out, "cfg", "config.json")))
